@@ -28,9 +28,12 @@ const (
 	oCritical = "critical-extension"
 	// a Discover Versions item: answered by the executor itself (no user handler), successful
 	oDiscover = "discover-versions"
+	// an item that a batch item middleware (an access filter) refuses with a failed response item of its own and a nil
+	// error: it has failed like any other, no handler runs for it
+	oRefused = "refused-by-middleware"
 )
 
-var outcomes = []string{oSuccess, oTyped, oPlain, oPanic, oUnrouted, oCritical, oDiscover}
+var outcomes = []string{oSuccess, oTyped, oPlain, oPanic, oUnrouted, oCritical, oDiscover, oRefused}
 
 type c09Case struct {
 	Outcomes []string `json:"item_outcomes"`
@@ -73,6 +76,13 @@ type callLog struct {
 
 func newExecutor(log *callLog, panicVal string, plainErr ...string) *kmipserver.BatchExecutor {
 	exec := kmipserver.NewBatchExecutor()
+	exec.BatchItemUse(func(next kmipserver.BatchItemNext, ctx context.Context, bi *kmip.RequestBatchItem) (*kmip.ResponseBatchItem, error) {
+		if pl, ok := bi.RequestPayload.(*payloads.ActivateRequestPayload); ok && strings.HasSuffix(pl.UniqueIdentifier, ":"+oRefused) {
+			return &kmip.ResponseBatchItem{Operation: bi.Operation, UniqueBatchItemID: bi.UniqueBatchItemID, ResultStatus: kmip.ResultStatusOperationFailed,
+				ResultReason: kmip.ResultReasonPermissionDenied, ResultMessage: "refused by the access filter"}, nil
+		}
+		return next(ctx, bi)
+	})
 	exec.Route(kmip.OperationActivate, kmipserver.HandleFunc(func(ctx context.Context, req *payloads.ActivateRequestPayload) (*payloads.ActivateResponsePayload, error) {
 		// identifier = "<index>:<outcome>"
 		parts := strings.SplitN(req.UniqueIdentifier, ":", 2)
@@ -339,7 +349,7 @@ var c09Sets = [][]string{{"1.4", "1.2"}, {"1.2"}, {"1.0", "1.3"}, {"1.1", "1.2",
 
 func TestC09Exhaustive(t *testing.T) {
 	const name = "TestC09Exhaustive"
-	rec := evid.New("C09", name, "all batches of length 0..3 over the seven item outcomes (incl. a Discover Versions item answered by the executor itself) x option {unset, Continue, Stop, Undo} x version {each of 1.0..1.4 on a default executor, unsupported 0.9/1.5/2.0/3.1, inside/outside one of six restricted sets; in a third of the cases another executor was given a restricted set just before; in a quarter one or two DiscoverVersions requests with partial version lists were served before, by this or another default executor} x batch count offset {-1,0,+1} x ids {none, all, some}; four cases in seven the request first travels through the codec (binary, XML or JSON), as the socket server and the HTTP handler receive it; in two fifths of the cases the request context is already cancelled on entry or is cancelled while the 1st..3rd handler runs, "+
+	rec := evid.New("C09", name, "all batches of length 0..3 over the eight item outcomes (incl. a Discover Versions item answered by the executor itself and an item refused by a batch item middleware with a failed response item and a nil error) x option {unset, Continue, Stop, Undo} x version {each of 1.0..1.4 on a default executor, unsupported 0.9/1.5/2.0/3.1, inside/outside one of six restricted sets; in a third of the cases another executor was given a restricted set just before; in a quarter one or two DiscoverVersions requests with partial version lists were served before, by this or another default executor} x batch count offset {-1,0,+1} x ids {none, all, some}; four cases in seven the request first travels through the codec (binary, XML or JSON), as the socket server and the HTTP handler receive it; in two fifths of the cases the request context is already cancelled on entry or is cancelled while the 1st..3rd handler runs, "+
 		"each executed once against a fresh BatchExecutor and compared with the executable model of the KMIP batch semantics; non-trivial = >= 2 items with a failing item that is not last, or a rejected request with >= 1 item; distinct by case").Attach(t)
 	rec.Exhaustive(true)
 	if rp := evid.LoadReplay(name); rp != nil {
@@ -429,7 +439,7 @@ func TestC09Exhaustive(t *testing.T) {
 
 func TestC09Random(t *testing.T) {
 	const name = "TestC09Random"
-	rec := evid.New("C09", name, "rapid: batches of 4..12 items with drawn outcomes, option, request version, supported set of this executor and of up to two other executors configured before it, up to three DiscoverVersions requests served before the batch, batch count offset, id mode, panic value, the way the request reaches the executor (as built, or through the binary, XML or JSON codec) and the moment (if any) at which the request context is cancelled; same model; "+
+	rec := evid.New("C09", name, "rapid: batches of 4..12 items with drawn outcomes, option, request version, supported set of this executor and of up to two other executors configured before it, up to three DiscoverVersions requests served before the batch, batch count offset (small, or making the count negative or huge), id mode, panic value, the way the request reaches the executor (as built, or through the binary, XML or JSON codec) and the moment (if any) at which the request context is cancelled; same model; "+
 		"non-trivial as in TestC09Exhaustive; distinct by case").Attach(t)
 	if rp := evid.LoadReplay(name); rp != nil {
 		var c c09Case
@@ -446,7 +456,7 @@ func TestC09Random(t *testing.T) {
 			Outcomes:   rapid.SliceOfN(rapid.SampledFrom(outcomes), 4, 12).Draw(rt, "outcomes"),
 			Option:     rapid.IntRange(0, 3).Draw(rt, "option"),
 			ReqVersion: rapid.SampledFrom([]string{"1.0", "1.1", "1.2", "1.3", "1.4", "1.0", "1.1", "1.2", "1.3", "1.4", "1.5", "2.0", "0.9"}).Draw(rt, "reqversion"),
-			CountOff:   rapid.SampledFrom([]int{0, 0, 0, 0, -1, 1, 5}).Draw(rt, "countoff"),
+			CountOff:   rapid.SampledFrom([]int{0, 0, 0, 0, -1, 1, 5, -13, -1000000, -2147483648, 2147483600, 1 << 20}).Draw(rt, "countoff"), // (also counts that are negative or huge: a count is a number the peer chose)
 			IDs:        rapid.SampledFrom([]string{"none", "all", "some"}).Draw(rt, "ids"),
 			PanicVal:   rapid.SampledFrom(panicKinds).Draw(rt, "panicval"),
 			PlainErr:   rapid.SampledFrom(plainErrorKinds).Draw(rt, "plainerr"),
